@@ -2,11 +2,12 @@
 # try_seeded.sh <id> <demo crate dir | sh> <check> [<check> ...] : copy the agent's deliverables, confirm them in the scratch
 # worktree, apply the change to /repo, run the given checks, undo the change
 ID=$1; CR=$2; shift 2
-mkdir -p /verif/seeded/$ID
-cp /tmp/wt-$ID/_mutation/patch.diff /tmp/wt-$ID/_mutation/meta.json /verif/seeded/$ID/
-cp /tmp/wt-$ID/_mutation/demo.* /verif/seeded/$ID/ 2>/dev/null
-(/verif/tools/confirm_seeded.sh /tmp/wt-$ID $CR > /var/tmp/conf-$ID.log 2>&1 &)
-git -C /repo apply /verif/seeded/$ID/patch.diff || { echo "PATCH DOES NOT APPLY"; exit 1; }
+WT=${WT:-/tmp/wt-$ID}; SD=${SD:-$ID}
+mkdir -p /verif/seeded/$SD
+cp $WT/_mutation/patch.diff $WT/_mutation/meta.json /verif/seeded/$SD/
+cp $WT/_mutation/demo.* /verif/seeded/$SD/ 2>/dev/null
+(/verif/tools/confirm_seeded.sh $WT $CR > /var/tmp/conf-$SD.log 2>&1 &)
+git -C /repo apply /verif/seeded/$SD/patch.diff || { echo "PATCH DOES NOT APPLY"; exit 1; }
 for c in "$@"; do
   echo "--- $c against seeded/$ID"
   (cd /verif && timeout 1800 ./check $c --tier quick --no-proof | tail -3)
